@@ -103,14 +103,28 @@ theorem not_comment_of_readFloat (s : Str) (q : Rat) (h : readFloat s = .ok q) (
     by_cases ha : a = '/'
     · exfalso
       subst ha
-      unfold readFloat at h
-      rw [strip_of_noWs _ hw] at h
-      have ht : takeSign ('/' :: t) = (false, '/' :: t) := rfl
-      rw [ht] at h
       have d1 : isDig '/' = false := by decide +kernel
-      have tw : List.takeWhile isDig ('/' :: t) = [] := by rw [List.takeWhile_cons, d1]; rfl
-      have dw : List.dropWhile isDig ('/' :: t) = '/' :: t := by rw [List.dropWhile_cons, d1]; rfl
-      simp [List.span_eq_takeWhile_dropWhile, tw, dw] at h
+      have hf : foldChar '/' = '/' := by decide +kernel
+      have hne : ('/' : Char) ≠ '_' := by decide
+      have hp : numPrep ('/' :: t) = (deUs false (t.map foldChar)).map ('/' :: ·) := by
+        unfold numPrep
+        rw [any_isSep_of_noWs _ hw, strip_of_noWs _ hw, List.map_cons, hf]
+        simp only [Bool.false_eq_true, if_false]
+        conv => lhs; unfold deUs
+        rw [if_neg hne, d1]
+      unfold readFloat at h
+      rw [hp] at h
+      cases hd : deUs false (t.map foldChar) with
+      | none => rw [hd] at h; cases h
+      | some t' =>
+        rw [hd] at h
+        replace h : readFloatA ('/' :: t') = .ok q := h
+        unfold readFloatA at h
+        have ht : takeSign ('/' :: t') = (false, '/' :: t') := rfl
+        rw [ht] at h
+        have tw : List.takeWhile isDig ('/' :: t') = [] := by rw [List.takeWhile_cons, d1]; rfl
+        have dw : List.dropWhile isDig ('/' :: t') = '/' :: t' := by rw [List.dropWhile_cons, d1]; rfl
+        simp [List.span_eq_takeWhile_dropWhile, tw, dw] at h
     · unfold isComment startsWith
       simp [List.isPrefixOf, Ne.symm ha]
 
